@@ -10,7 +10,7 @@ import (
 // Event is one entry of an observed history. Harness actions are logged BEFORE they are performed,
 // observations AFTER they were made (see lean/FwdVerif/Driver/C11.lean).
 type Event struct {
-	Op   string        `json:"op"`          // c r h p s g a e o R t x L SC SR CC CR D Z G X XR K NL SG
+	Op   string        `json:"op"`          // c r h p s g a e o R t x L SC SR CC CR D Z G X XR K NL SG GC MR GR
 	K    int           `json:"k,omitempty"` // connection; SC SR D Z: number of the Shutdown call; CC CR: number of the Close call; G: the signal's number
 	A    bool          `json:"a,omitempty"` // c: tls   s: CONNECT   R: Connection: close   SC: the context has no deadline
 	B    bool          `json:"b,omitempty"` // s: request carries Connection: close   SC: the context is cancelled by somebody
@@ -38,8 +38,13 @@ func (e *Event) wire() string {
 		return fmt.Sprintf("SC:%d:%s:%s", e.K, b(e.A), b(e.B))
 	case "SR":
 		return fmt.Sprintf("SR:%d:%s", e.K, e.R)
-	case "r", "h", "p", "g", "a", "e", "o", "x", "t", "CC", "CR", "D", "Z", "G":
+	case "r", "h", "p", "g", "a", "e", "o", "x", "t", "CC", "CR", "D", "Z", "G", "MR":
 		return fmt.Sprintf("%s:%d", e.Op, e.K)
+	case "GC":
+		if e.R == "" {
+			return fmt.Sprintf("GC:%d", e.K)
+		}
+		return fmt.Sprintf("GC:%d:%s", e.K, e.R)
 	case "SG":
 		if e.R == "" {
 			return "SG"
@@ -124,7 +129,7 @@ func (l *Log) AddRet(k int, res string) *Event {
 func withDeadline(evs []*Event, callOp string, k int, timeout time.Duration) []*Event {
 	var call *Event
 	for _, e := range evs {
-		if e.Op == callOp && (e.K == k || callOp == "X") {
+		if e.Op == callOp && (e.K == k || callOp == "X" || callOp == "G") {
 			call = e
 			break
 		}
